@@ -1990,13 +1990,19 @@ fn specialize(ctor: &Ctor, pattern: &[TypedPattern]) -> Vec<PatternStack> {
             | PatternEnum::StructIgnoreRemaining(struct_name_in_pattern, fields)
                 if struct_name == struct_name_in_pattern =>
             {
-                vec![
-                    fields
-                        .iter()
-                        .map(|(_, pattern)| pattern.clone())
-                        .chain(tail)
-                        .collect(),
-                ]
+                // one column per field of the struct (in the order of the struct definition); a
+                // field that is not mentioned by the pattern (`..`) is matched by a wildcard
+                let mut columns = Vec::with_capacity(field_types.len());
+                for (field_name, ty) in field_types {
+                    match fields.iter().find(|(name, _)| name == field_name) {
+                        Some((_, pattern)) => columns.push(pattern.clone()),
+                        None => {
+                            let wildcard = PatternEnum::Identifier("_".to_string());
+                            columns.push(Pattern::typed(wildcard, ty.clone(), *meta));
+                        }
+                    }
+                }
+                vec![columns.into_iter().chain(tail).collect()]
             }
             _ => vec![],
         },
